@@ -222,7 +222,7 @@ fn k_calculate_hash_index2() {
     core::mem::forget(idx);
 }
 
-//@unit props=C01,C12 label=B tier=thorough fn=sqpack::index::SqPackIndex::calculate_hash bound="Index1; ASCII paths of exactly 5 bytes 'ab/cd' with symbolic letters; checksum replaced by a recorder, to_lowercase by an ASCII model" stubs=Jamcrc::checksum,to_lowercase
+//@unit props=C01,C12 label=B tier=parked fn=sqpack::index::SqPackIndex::calculate_hash bound="Index1; ASCII paths of exactly 5 bytes 'ab/cd' with symbolic letters; checksum replaced by a recorder, to_lowercase by an ASCII model" stubs=Jamcrc::checksum,to_lowercase
 //@desc for a split index the path hash is taken over the lower-cased directory part (before the last '/') and the name hash over the lower-cased file part (after it)
 #[kani::proof]
 #[kani::unwind(8)]
